@@ -8,7 +8,7 @@ Ltac simp := cbn [fst snd pc prog fuse arg epoch handles rchange rgen rdata pend
                   cap dist0 dist1 dist2 cells igen gens datas change clock published oplog settled
                   set_pc set_fuse set_prog set_handles set_pend set_epoch set_snap set_ughost set_arg set_crash done abandon dirty orph dead
                   set_cells set_igen set_gens set_datas set_published set_settled tick complete
-                  in_rec add_slot busy refreshing scanned in_upd me] in *.
+                  in_rec add_slot busy refreshing scanned in_upd me fusable rec_true] in *.
 
 (* g' is g up to fields no invariant reads (igen, dist) and a later clock *)
 Record Same (g g' : cgst) : Prop := {
@@ -44,7 +44,7 @@ Qed.
 (* only the pc (and program / call argument) of the thread changes *)
 Lemma linv_pc g t l l' :
   LInv g t l ->
-  fuse l' = fuse l -> forallb crash_free_op (prog l') = true -> epoch l' = epoch l ->
+  L0P l' -> epoch l' = epoch l ->
   (forall j i, nth j (handles l') None = Some i -> nth j (handles l) None = Some i) ->
   rchange l' = rchange l -> rgen l' = rgen l -> rdata l' = rdata l -> (forall i gm, In (i, gm) (pend l') -> In (i, gm) (pend l) \/ (i < cap g /\ gm <= gens g i)) ->
   ustart l' = ustart l -> ulast l' = ulast l -> uprev l' = uprev l ->
@@ -59,9 +59,9 @@ Lemma linv_pc g t l l' :
   (in_upd (pc l') = false -> in_upd (pc l) = false) ->
   LInv g t l'.
 Proof.
-  intros [H0 H1 H2 H3 H4 H5 H6 H7 H8 H9 H10 H11] Ef Ep Ee Eh Ec Eg Ed Epd Eu El Ev Hb Ha Hp Hr Hsc Hni.
-  constructor; unfold me; rewrite ?Ef, ?Ee, ?Ec, ?Eg, ?Ed, ?Eu, ?El, ?Ev.
-  - destruct H0; auto.
+  intros [H0 H1 H2 H3 H4 H5 H6 H7 H8 H9 H10 H11] Ef Ee Eh Ec Eg Ed Epd Eu El Ev Hb Ha Hp Hr Hsc Hni.
+  constructor; unfold me; rewrite ?Ee, ?Ec, ?Eg, ?Ed, ?Eu, ?El, ?Ev.
+  - exact Ef.
   - exact H1.
   - exact H2.
   - intros i gm Hin. destruct (Epd i gm Hin) as [E|E]; auto.
@@ -80,18 +80,38 @@ Proof.
   - intros E. apply H11. auto.
 Qed.
 
-Lemma crash_free_tl o p : forallb crash_free_op (o :: p) = true -> forallb crash_free_op p = true.
-Proof. cbn. intros H. apply andb_prop in H. tauto. Qed.
+Lemma crash_ok_tl o p : crash_ok_prog (o :: p) = true -> crash_ok_prog p = true.
+Proof. cbn [crash_ok_prog]. intros H. apply andb_prop in H. tauto. Qed.
+Lemma crash_ok_fused o p : crash_ok_prog (o :: p) = true -> crash_free_op o = false -> next_rec p.
+Proof.
+  cbn [crash_ok_prog]. intros H Ho. rewrite Ho in H. apply andb_prop in H. destruct H as [H _].
+  destruct p as [|[| |[|]|] r]; try discriminate. exists r. reflexivity.
+Qed.
+Lemma crash_free_ok p : forallb crash_free_op p = true -> crash_ok_prog p = true.
+Proof. induction p as [|o p IH]; cbn; auto. intros H. apply andb_prop in H. destruct H as [-> H]. cbn. auto. Qed.
 
 (* only the remaining program changes *)
-Lemma linv_prog g t l p : LInv g t l -> forallb crash_free_op p = true -> LInv g t (set_prog l p).
-Proof. intros [[H0 H0'] H1 H2 H3 H4 H5 H6 H7 H8 H9 H10 H11] Hp. constructor; auto. Qed.
+Lemma linv_prog g t l p : LInv g t l -> L0P (set_prog l p) -> LInv g t (set_prog l p).
+Proof. intros [H0 H1 H2 H3 H4 H5 H6 H7 H8 H9 H10 H11] Hp. constructor; auto. Qed.
+
+(* L0P of the next local state from the one of the current state *)
+Ltac l0p :=
+  match goal with
+  | Hcf : crash_ok_prog (prog ?l) = true, Hd : dirty ?l = false, Hfz : fuse ?l <> None -> _ |- L0P _ =>
+    unfold L0P; try match goal with E : pc l = _ |- _ => rewrite ?E in * end;
+    cbn [pc prog fuse dirty set_pc set_fuse set_prog set_handles set_pend set_epoch set_snap set_ughost set_arg set_crash done];
+    split; [first [exact Hcf | eapply crash_ok_tl; eassumption]|split; [first [exact Hd|reflexivity]|]];
+    let Hz := fresh "Hz" in intros Hz;
+    first [ exfalso; apply Hz; reflexivity
+          | let Hb := fresh "Hb" in let Hn := fresh "Hn" in destruct (Hfz Hz) as [Hb Hn];
+            first [split; [reflexivity|exact Hn] | cbn in Hb; discriminate] ]
+  end.
 
 Ltac side :=
   try match goal with E : pc ?l = _ |- _ => rewrite ?E end;
   simp;
   try reflexivity; try assumption; try discriminate; try (symmetry; assumption);
-  try (eapply crash_free_tl; eassumption);
+  try l0p;
   try (intros; discriminate);
   try (intros _; split; [reflexivity|intros ? ? ? ?; first [assumption|discriminate]]);
   try (intros ? ? ?; left; assumption);
@@ -117,7 +137,7 @@ Ltac pcmove HL HGI g g' :=
 (* the running call returns: pc Idle, no pending entries *)
 Lemma linv_done g t l l' :
   LInv g t l ->
-  pc l' = Idle -> fuse l' = None -> forallb crash_free_op (prog l') = true -> epoch l' = epoch l ->
+  pc l' = Idle -> L0P l' -> epoch l' = epoch l ->
   rchange l' = rchange l -> rgen l' = rgen l -> rdata l' = rdata l -> pend l' = [] -> ustart l' = ustart l ->
   (forall j i, nth j (handles l') None = Some i ->
      i < cap g /\ cells g i = owner_of t (epoch l) /\ forall j', nth j' (handles l') None = Some i -> j' = j) ->
@@ -127,9 +147,9 @@ Lemma linv_done g t l l' :
   (ulast l' = false -> forall i, uprev l' i = rgen l i) ->
   LInv g t l'.
 Proof.
-  intros [H0 H1 H2 H3 H4 H5 H6 H7 H8 H9 H10 H11] Epc Ef Ep Ee Ec Eg Ed Epd Eu Hh Ha Hr Hsc Hu.
-  constructor; unfold me, PcInv; rewrite ?Epc, ?Ef, ?Ee, ?Ec, ?Eg, ?Ed, ?Epd, ?Eu; simp.
-  - auto.
+  intros [H0 H1 H2 H3 H4 H5 H6 H7 H8 H9 H10 H11] Epc Ef Ee Ec Eg Ed Epd Eu Hh Ha Hr Hsc Hu.
+  constructor; unfold me, PcInv; rewrite ?Epc, ?Ee, ?Ec, ?Eg, ?Ed, ?Epd, ?Eu; simp.
+  - exact Ef.
   - exact H1.
   - exact H2.
   - intros i gm [].
@@ -223,26 +243,29 @@ Section Step.
   Hypothesis HGI : GInv g.
   Hypothesis HL : LInv g t l.
 
-  Lemma step_is_acc : step t g l = step_acc t g l.
-  Proof. unfold step. destruct (L0 _ _ _ HL) as [-> _]. reflexivity. Qed.
-
   Definition Goal3 (r : option (cgst * clst * list ev)) : Prop :=
     match r with Some (g', l', _) => Guar t g g' /\ LInv g' t l' /\ GInv g' | None => True end.
 
   Lemma step_ok : Goal3 (step_acc t g l).
   Proof.
-    pose proof HL as [[Hf Hcf] H1 H2 H3 H4 H5 H6 H7 H8 H9 H10 H11]. unfold PcInv in H7.
+    pose proof HL as [(Hcf & Hdy & Hfz) H1 H2 H3 H4 H5 H6 H7 H8 H9 H10 H11]. unfold PcInv in H7.
     unfold step_acc, Goal3.
     destruct (pc l) eqn:Epc.
     - (* Idle *)
       destruct (prog l) as [|o p] eqn:Eprog; [exact I|].
-      pose proof (crash_free_tl _ _ Hcf) as Hcf'.
+      pose proof (crash_ok_tl _ _ Hcf) as Hcf'.
+      assert (Hfn : fuse l = None).
+      { destruct (fuse l) eqn:Ef; auto. destruct Hfz as [Hb _]; [discriminate|]. cbn in Hb. discriminate. }
+      assert (HP0 : forall l0, prog l0 = p -> dirty l0 = false -> fuse l0 = None -> L0P l0).
+      { intros l0 E1 E2 E3. unfold L0P. rewrite E1, E2, E3. split; [exact Hcf'|]. split; [reflexivity|]. intros Hz. exfalso. apply Hz. reflexivity. }
       destruct o as [v fz|j fz|pr|].
       + (* add *)
-        destruct fz as [k|]; [cbn in Hcf; discriminate|]. simp.
-        pcmove HL HGI g (tick g).
+        destruct fz as [[|k]|]; simp.
+        * split; [apply same_guar, same_tick|]. split; [|apply (same_ginv g _ (same_tick g) HGI)].
+          apply (same_linv g _ _ _ (same_tick g)). apply linv_prog; auto.
+        * pcmove HL HGI g (tick g). unfold L0P. simp. repeat split; auto. eapply crash_ok_fused; eauto.
+        * pcmove HL HGI g (tick g). apply HP0; auto.
       + (* remove *)
-        destruct fz as [k|]; [cbn in Hcf; discriminate|].
         destruct (nth j (handles l) None) as [i|] eqn:Ej.
         * assert (Hjl : (j < length (handles l))%nat).
           { destruct (Nat.ltb_spec j (length (handles l))); auto. rewrite nth_overflow in Ej by lia. discriminate. }
@@ -251,23 +274,28 @@ Section Step.
             - rewrite nth_upd_same by auto. discriminate.
             - rewrite nth_upd_other by auto. auto. }
           destruct (H4 eq_refl j i Ej) as (A & B & C & D).
-          pcmove HL HGI g (tick g).
-          -- intros j' i' Hj'. apply Hsub; auto.
-          -- intros _. split; auto. intros j' i' Hj' E. inversion E; subst i'. destruct (Hsub _ _ Hj') as [Hj'' Hne]. exfalso. apply Hne. apply D. auto.
-          -- unfold PcInv. simp. auto.
+          destruct fz as [[|k]|]; simp; pcmove HL HGI g (tick g).
+          all: try solve [apply HP0; auto].
+          all: try (intros j' i' Hj'; apply Hsub; auto).
+          all: try (unfold L0P; simp; repeat split; auto; eapply crash_ok_fused; eauto).
+          all: try (intros _; split; auto; intros j' i' Hj' E; inversion E; subst i'; destruct (Hsub _ _ Hj') as [Hj'' Hne]; exfalso; apply Hne; apply D; auto).
+          all: try (unfold PcInv; simp; auto).
+          all: rewrite ?Epc; simp; try exact I; try (intros _; split; [reflexivity|intros; assumption]); try (intros; discriminate).
         * split; [apply same_guar, same_refl|]. split; [|exact HGI]. apply linv_prog; auto.
       + (* recover *)
-        destruct (N.eqb_spec (igen g) MAX64); pcmove HL HGI g (tick g).
+        pcmove HL HGI g (tick g). apply HP0; auto.
       + (* update *)
         destruct HGI as [GA' GB' GC' GD' GE'].
         destruct (N.eqb_spec (rchange l) (change g)) as [Ec|Ec].
         * split; [apply same_guar; constructor; simp; auto; lia|]. split; [|apply (same_ginv g); [constructor; simp; auto; lia|constructor; auto]].
-          constructor; unfold PcInv; simp; rewrite ?Epc; simp; auto; try lia.
+          constructor; unfold PcInv; simp; rewrite ?Epc; simp; auto; try lia; try l0p.
           all: try solve [intros i gm c e Hin He; destruct (GD' _ _ _ _ Hin) as (_ & _ & ? & _); lia].
+          all: try (apply HP0; auto).
         * split; [apply same_guar, same_tick|]. split; [|apply (same_ginv g _ (same_tick g)); constructor; auto].
-          constructor; unfold PcInv; simp; rewrite ?Epc; simp; auto; try lia.
+          constructor; unfold PcInv; simp; rewrite ?Epc; simp; auto; try lia; try l0p.
           all: try solve [intros; discriminate].
           all: try solve [intros i gm c e Hin He; destruct (GD' _ _ _ _ Hin) as (_ & _ & ? & _); lia].
+          all: try (apply HP0; auto).
     - (* AddLoadIgen *)
       unfold add_next. destruct (N.ltb_spec 0 (cap g)); pcmove HL HGI g g.
     - (* AddScan *)
@@ -281,14 +309,14 @@ Section Step.
         * apply (guar_slot t g _ n0); simp; auto; try lia; try (intros; congruence);
             try (intros i Hi; rewrite fupd_other by auto; auto); rewrite ?fupd_same;
             [right; left; split; auto; eexists; reflexivity|right; eexists; reflexivity].
-        * constructor; simp; auto.
+        * constructor; simp; auto; try l0p.
           -- intros _ j i Hj. destruct (H4 eq_refl j i Hj) as (A & B & C & D). pose proof (Hme i B).
              rewrite fupd_other by auto. repeat split; auto. congruence.
           -- intros m Hc Hm. assert (m <> n0) by congruence. rewrite fupd_other in Hc by auto. apply H5; auto. discriminate.
           -- intros m e. unfold fupd. destruct (N.eqb_spec m n0); subst; [|apply H6].
              intros E. apply owner_of_inj in E. lia.
           -- unfold PcInv, Uns. simp. rewrite fupd_same. auto.
-        * destruct HGI as [GA' GB' GC' GD' GE']. constructor; simp; auto.
+        * destruct HGI as [GA' GB' GC' GD' GE']. constructor; simp; auto; try l0p.
           intros i. unfold fupd. destruct (N.eqb_spec i n0); subst; [intros _; apply owner_not_empty|apply GE'].
       + unfold add_next. destruct (N.ltb_spec (n0 + 1) (cap g)); pcmove HL HGI g g.
     - (* AddFinal *)
@@ -313,10 +341,10 @@ Section Step.
         * apply (guar_slot t g _ n); simp; auto; try lia; try (intros; congruence);
             try (intros i Hi; rewrite fupd_other by auto; auto).
           left. exists (epoch l). auto.
-        * constructor; simp; auto.
+        * constructor; simp; auto; try l0p.
           -- intros m Hc' Hm. assert (m <> n) by congruence. rewrite fupd_other by auto. apply H5; auto; congruence.
           -- unfold PcInv, SetE. simp. rewrite fupd_same. auto.
-        * destruct HGI as [GA' GB' GC' GD' GE']. constructor; simp; auto.
+        * destruct HGI as [GA' GB' GC' GD' GE']. constructor; simp; auto; try l0p.
           intros i. unfold fupd. destruct (N.eqb_spec i n); subst; [intros _; rewrite Hc; apply owner_not_empty|apply GE'].
     - (* AddCasGen *)
       rename g0 into x.
@@ -327,12 +355,12 @@ Section Step.
         * apply (guar_slot t g _ n); simp; auto; try lia; try (intros; congruence);
             try (intros i Hi; rewrite !fupd_other by auto; auto); rewrite ?fupd_same; try lia; auto.
           all: try solve [left; exists (epoch l); auto].
-        * constructor; simp; auto.
+        * constructor; simp; auto; try l0p.
           -- intros i. unfold fupd. destruct (N.eqb_spec i n); subst; [pose proof (H2 n); lia|apply H2].
           -- intros i gm Hin. destruct (H3 i gm Hin). split; auto. unfold fupd. destruct (N.eqb_spec i n); subst; lia.
           -- intros m Hc' Hm. assert (m <> n) by congruence. rewrite !fupd_other by auto. apply H5; auto; congruence.
           -- unfold PcInv, SetE. simp. rewrite !fupd_same. auto.
-        * destruct HGI as [GA' GB' GC' GD' GE']. constructor; simp; auto.
+        * destruct HGI as [GA' GB' GC' GD' GE']. constructor; simp; auto; try l0p.
           -- intros i a b Hin. destruct (GA' i a b Hin). split; auto. unfold fupd. destruct (N.eqb_spec i n); subst; lia.
           -- intros i. unfold fupd. destruct (N.eqb_spec i n); subst; [congruence|apply GB'].
           -- intros i gm c e Hin. destruct (GD' _ _ _ _ Hin) as (? & ? & ? & ?). repeat split; auto.
@@ -344,10 +372,10 @@ Section Step.
             try (intros i Hi; rewrite !fupd_other by auto; auto); rewrite ?fupd_same; try lia; auto.
           all: try solve [left; exists (epoch l); auto].
           all: try solve [intros _ _; rewrite Eg'; auto].
-        * constructor; simp; auto.
+        * constructor; simp; auto; try l0p.
           -- intros m Hc' Hm. assert (m <> n) by congruence. rewrite !fupd_other by auto. apply H5; auto; congruence.
           -- unfold PcInv, SetE. simp. rewrite !fupd_same. rewrite Eg'. auto.
-        * destruct HGI as [GA' GB' GC' GD' GE']. constructor; simp; auto.
+        * destruct HGI as [GA' GB' GC' GD' GE']. constructor; simp; auto; try l0p.
           intros i. unfold fupd. destruct (N.eqb_spec i n); subst; [intros _; rewrite Hc; apply owner_not_empty|apply GE'].
     - (* AddDist1 *) pcmove HL HGI g g.
     - (* AddWrite *)
@@ -356,9 +384,9 @@ Section Step.
       * apply (guar_slot t g _ n); simp; auto; try lia; try (intros; congruence);
           try (intros i Hi; rewrite !fupd_other by auto; auto); rewrite ?fupd_same; try lia; auto.
         all: try solve [left; exists (epoch l); auto].
-      * constructor; simp; auto.
+      * constructor; simp; auto; try l0p.
         unfold PcInv, SetE. simp. rewrite !fupd_same. auto.
-      * destruct HGI as [GA' GB' GC' GD' GE']. constructor; simp; auto.
+      * destruct HGI as [GA' GB' GC' GD' GE']. constructor; simp; auto; try l0p.
         intros i. unfold fupd. destruct (N.eqb_spec i n); subst; [congruence|apply GB'].
     - (* AddIncGen *)
       destruct H7 as (Hn & (Hc & Hs & Ho) & Hd).
@@ -368,13 +396,13 @@ Section Step.
           try (intros i Hi; rewrite !fupd_other by auto; auto); rewrite ?fupd_same; try lia; auto.
         all: try solve [left; exists (epoch l); auto].
         all: try solve [intros x Hx; apply in_or_app; auto].
-      * constructor; simp; auto.
+      * constructor; simp; auto; try l0p.
         -- intros i. unfold fupd. destruct (N.eqb_spec i n); subst; [pose proof (H2 n); lia|apply H2].
         -- intros i gm [E|[]]. inversion E; subst. rewrite fupd_same. split; auto; lia.
         -- intros m Hc' _. unfold fupd. destruct (N.eqb_spec m n); subst; [auto|]. apply H5; auto; congruence.
         -- unfold PcInv. simp. auto.
         -- intros i Hr Hoi. unfold fupd. destruct (N.eqb_spec i n); subst; [apply in_or_app; left|]; apply H8; auto.
-      * destruct HGI as [GA' GB' GC' GD' GE']. constructor; simp; auto.
+      * destruct HGI as [GA' GB' GC' GD' GE']. constructor; simp; auto; try l0p.
         -- intros i a b. unfold fupd. destruct (N.eqb_spec i n); subst.
            ++ intros Hin. apply in_app_or in Hin. destruct Hin as [Hin|[E|[]]].
               ** destruct (GA' _ _ _ Hin). split; auto; lia.
@@ -424,7 +452,7 @@ Section Step.
           try (intros m Hm; rewrite !fupd_other by auto; auto); rewrite ?fupd_same; try lia; auto.
         all: try solve [left; exists (epoch l); auto].
         all: try solve [right; right; split; auto; exists (epoch l); auto].
-      * constructor; simp; auto.
+      * constructor; simp; auto; try l0p.
         -- intros _ j i0 Hj. destruct (H4 eq_refl j i0 Hj) as (A & B & C & D). assert (i0 <> i) by congruence.
            rewrite fupd_other by auto. repeat split; auto. discriminate.
         -- intros m. unfold fupd at 1. destruct (N.eqb_spec m i); subst; [intros E; exfalso; apply Hne; auto|].
@@ -432,7 +460,7 @@ Section Step.
         -- intros m e. unfold fupd. destruct (N.eqb_spec m i); subst; [|apply H6].
            intros E. exfalso. eapply owner_not_empty. symmetry. exact E.
         -- unfold PcInv, Stale. simp. rewrite fupd_same. subst gn. repeat split; auto; try lia; try discriminate.
-      * destruct HGI as [GA' GB' GC' GD' GE']. constructor; simp; auto.
+      * destruct HGI as [GA' GB' GC' GD' GE']. constructor; simp; auto; try l0p.
         intros m. unfold fupd. destruct (N.eqb_spec m i); subst; [discriminate|apply GE'].
     - (* RemCasGen *)
       destruct H7 as (Hn & Ho & Hle & Hst).
@@ -440,12 +468,12 @@ Section Step.
       destruct (N.eqb_spec (gens g i) gn) as [Eg|Eg].
       + assert (Hs : settled g i = false) by (destruct (settled g i); auto; specialize (Hst eq_refl); lia).
         split; [apply guar_stale; auto|]. split.
-        * constructor; simp; auto.
+        * constructor; simp; auto; try l0p.
           -- intros m. unfold fupd. destruct (N.eqb_spec m i); subst; [pose proof (H2 i); lia|apply H2].
           -- intros m gm [E|[]]. inversion E; subst. rewrite fupd_same. split; auto; lia.
           -- intros m Hc' Hm. destruct (H5 m Hc' Hm) as [A B]. assert (m <> i) by congruence. rewrite fupd_other by auto. auto.
           -- unfold PcInv. simp. exact I.
-        * destruct HGI as [GA' GB' GC' GD' GE']. constructor; simp; auto.
+        * destruct HGI as [GA' GB' GC' GD' GE']. constructor; simp; auto; try l0p.
           -- intros m a b Hin. destruct (GA' m a b Hin). split; auto. unfold fupd. destruct (N.eqb_spec m i); subst; lia.
           -- intros m. unfold fupd. destruct (N.eqb_spec m i); subst; [congruence|apply GB'].
           -- intros m gm c e Hin. destruct (GD' _ _ _ _ Hin) as (? & ? & ? & ?). repeat split; auto.
@@ -482,14 +510,14 @@ Section Step.
           try (intros m Hm; rewrite !fupd_other by auto; auto); rewrite ?fupd_same; try lia; auto.
         all: try solve [left; exists (epoch l); auto].
         all: try solve [right; right; split; auto; exists (epoch l); auto].
-      * constructor; simp; auto.
+      * constructor; simp; auto; try l0p.
         -- intros; discriminate.
         -- intros m. unfold fupd at 1. destruct (N.eqb_spec m n); subst; [intros E; exfalso; apply Hne; auto|].
            intros Hc' _. rewrite fupd_other by auto. apply H5; auto. discriminate.
         -- intros m e. unfold fupd. destruct (N.eqb_spec m n); subst; [|apply H6].
            intros E. exfalso. eapply owner_not_empty. symmetry. exact E.
         -- unfold PcInv, Stale. simp. rewrite fupd_same. subst v. repeat split; auto; try lia; try discriminate.
-      * destruct HGI as [GA' GB' GC' GD' GE']. constructor; simp; auto.
+      * destruct HGI as [GA' GB' GC' GD' GE']. constructor; simp; auto; try l0p.
         intros m. unfold fupd. destruct (N.eqb_spec m n); subst; [discriminate|apply GE'].
     - (* RecSDist0 *) pcmove HL HGI g g.
     - (* RecCasGen *)
@@ -498,14 +526,14 @@ Section Step.
       destruct (N.eqb_spec (gens g n) v) as [Eg|Eg].
       + assert (Hs : settled g n = false) by (destruct (settled g n); auto; specialize (Hst eq_refl); lia).
         split; [apply guar_stale; auto|]. split.
-        * constructor; simp; auto.
+        * constructor; simp; auto; try l0p.
           -- intros m. unfold fupd. destruct (N.eqb_spec m n); subst; [pose proof (H2 n); lia|apply H2].
           -- intros m gm [E|Hin].
              ++ inversion E; subst. rewrite fupd_same. split; auto; lia.
              ++ destruct (H3 m gm Hin). split; auto. unfold fupd. destruct (N.eqb_spec m n); subst; lia.
           -- intros m Hc' Hm. destruct (H5 m Hc' Hm) as [A B]. assert (m <> n) by congruence. rewrite fupd_other by auto. auto.
           -- unfold PcInv. simp. exact I.
-        * destruct HGI as [GA' GB' GC' GD' GE']. constructor; simp; auto.
+        * destruct HGI as [GA' GB' GC' GD' GE']. constructor; simp; auto; try l0p.
           -- intros m a b Hin. destruct (GA' m a b Hin). split; auto. unfold fupd. destruct (N.eqb_spec m n); subst; lia.
           -- intros m. unfold fupd. destruct (N.eqb_spec m n); subst; [congruence|apply GB'].
           -- intros m gm c e Hin. destruct (GD' _ _ _ _ Hin) as (? & ? & ? & ?). repeat split; auto.
@@ -517,7 +545,7 @@ Section Step.
       apply (linv_complete g t l); auto.
       assert (Hnone : forall j i, nth j (map (fun _ : option N => @None N) (handles l)) None <> Some i).
       { intros j i. generalize (handles l) j. induction l0 as [|h hs IH]; intros [|j0]; cbn; try discriminate. apply IH. }
-      constructor; simp; auto.
+      constructor; simp; auto; try l0p.
       -- intros i gm [].
       -- intros _ j i Hj. exfalso. eapply Hnone; eauto.
       -- intros m Hc _. unfold me in Hc. simp. apply H6 in Hc. lia.
@@ -550,7 +578,7 @@ Section Step.
       + assert (Hsnap : LInv g t (set_snap l (rchange l) (fupd (rgen l) i (gens g i)) (rdata l)) -> True) by auto.
         destruct (odd (gens g i)) eqn:Eo.
         * split; [apply same_guar, same_refl|]. split; [|constructor; auto].
-          constructor; unfold PcInv; simp; rewrite ?Epc; simp; auto; try lia.
+          constructor; unfold PcInv; simp; rewrite ?Epc; simp; auto; try lia; try l0p.
           all: try solve [intros; discriminate].
           -- intros m. unfold fupd. destruct (N.eqb_spec m i); subst; [lia|apply H2].
           -- rewrite fupd_same. split; auto; lia.
@@ -559,7 +587,7 @@ Section Step.
              ++ destruct (Hlog _ _ _ Hin). lia.
              ++ eapply H9; eauto. apply N.ltb_lt. lia.
         * split; [apply same_guar, same_refl|]. split; [|constructor; auto].
-          constructor; unfold PcInv; simp; rewrite ?Epc; simp; auto; try lia.
+          constructor; unfold PcInv; simp; rewrite ?Epc; simp; auto; try lia; try l0p.
           all: try solve [intros; discriminate].
           -- intros m. unfold fupd. destruct (N.eqb_spec m i); subst; [lia|apply H2].
           -- rewrite fupd_same. split; auto. split; [lia|]. intros; congruence.
@@ -571,7 +599,7 @@ Section Step.
     - (* UpdCopy *)
       destruct H7 as (Hr & Hle).
       split; [apply same_guar, same_refl|]. split; [|exact HGI].
-      constructor; unfold PcInv; simp; rewrite ?Epc; simp; auto; try lia.
+      constructor; unfold PcInv; simp; rewrite ?Epc; simp; auto; try lia; try l0p.
       all: try solve [intros; discriminate].
       + rewrite fupd_same. auto.
       + intros m Hrm. unfold fupd. destruct (N.eqb_spec m i); subst; [rewrite N.eqb_refl in Hrm; discriminate|apply H8; auto].
@@ -595,7 +623,7 @@ Section Step.
           -- intros m Hs gm c e Hin _. apply N.leb_gt in Hs. destruct (GD' _ _ _ _ Hin) as (? & ? & _). lia.
       + destruct (odd (gens g i)) eqn:Eo.
         * split; [apply same_guar, same_refl|]. split; [|constructor; auto].
-          constructor; unfold PcInv; simp; rewrite ?Epc; simp; auto; try lia.
+          constructor; unfold PcInv; simp; rewrite ?Epc; simp; auto; try lia; try l0p.
           all: try solve [intros; discriminate].
           -- intros m. unfold fupd. destruct (N.eqb_spec m i); subst; [lia|apply H2].
           -- rewrite fupd_same. split; auto; lia.
@@ -604,7 +632,7 @@ Section Step.
              ++ destruct (Hlog _ _ _ Hin). lia.
              ++ eapply H9; eauto.
         * split; [apply same_guar, same_refl|]. split; [|constructor; auto].
-          constructor; unfold PcInv; simp; rewrite ?Epc; simp; auto; try lia.
+          constructor; unfold PcInv; simp; rewrite ?Epc; simp; auto; try lia; try l0p.
           all: try solve [intros; discriminate].
           -- intros m. unfold fupd. destruct (N.eqb_spec m i); subst; [lia|apply H2].
           -- rewrite fupd_same. split; auto. split; [lia|]. intros; congruence.
@@ -614,3 +642,63 @@ Section Step.
              ++ eapply H9; eauto.
   Qed.
 End Step.
+
+(* ---------------- abandoned calls ---------------- *)
+Lemma fusable_plain p i : fusable p = true -> refreshing p i = false /\ scanned p i = true /\ in_upd p = false /\ in_rec p = false.
+Proof. destruct p; try discriminate; try (destruct k; try discriminate); auto. Qed.
+
+Lemma linv_setfuse g t l k : LInv g t l -> fuse l = Some (S k) -> LInv g t (set_fuse l (Some k)).
+Proof.
+  intros [(Hcf & Hd & Hfz) H1 H2 H3 H4 H5 H6 H7 H8 H9 H10 H11] Ef. constructor; auto.
+  split; [exact Hcf|]. split; [exact Hd|]. intros _. apply Hfz. rewrite Ef. discriminate.
+Qed.
+
+Lemma step_abandon g t l : GInv g -> LInv g t l -> fuse l <> None ->
+  Guar t g (tick g) /\ LDirty (tick g) t (abandon l) /\ GInv (tick g).
+Proof.
+  intros HG [(Hcf & Hd & Hfz) H1 H2 H3 H4 H5 H6 H7 H8 H9 H10 H11] Hz.
+  destruct (Hfz Hz) as [Hb Hn]. destruct H1 as [H1a H1b].
+  split; [apply same_guar, same_tick|]. split; [|apply (same_ginv g _ (same_tick g) HG)].
+  constructor; unfold PcInvD; simp; auto; try lia.
+  all: try solve [intros i gm []].
+  all: try solve [intros i Ho; apply H8; auto; apply fusable_plain; auto].
+  all: try solve [intros i gm c e Hin Hc; eapply H9; eauto; apply fusable_plain; auto].
+  all: try solve [intros Hu; apply H11; auto; apply (fusable_plain _ 0); auto].
+  repeat split; auto.
+Qed.
+
+(* only the pc (and program / pending entries) of a thread whose owner died changes *)
+Lemma ldirty_pc g t l l' :
+  LDirty g t l ->
+  (crash_ok_prog (prog l') = true /\ dirty l' = true /\ fuse l' = None /\
+   ((pc l' = Idle /\ next_rec (prog l')) \/ rec_true (pc l') = true)) ->
+  epoch l' = epoch l -> rchange l' = rchange l -> rgen l' = rgen l -> rdata l' = rdata l ->
+  (forall i gm, In (i, gm) (pend l') -> In (i, gm) (pend l) \/ (i < cap g /\ gm <= gens g i)) ->
+  ustart l' = ustart l -> ulast l' = ulast l -> uprev l' = uprev l ->
+  PcInvD g (owner_of t (epoch l)) l' ->
+  LDirty g t l'.
+Proof.
+  intros [H0 H1 H2 H3 H6 H7 H8 H9 H10 H11] E0 Ee Ec Eg Ed Epd Eu El Ev Hp.
+  constructor; unfold me; rewrite ?Ee, ?Ec, ?Eg, ?Ed, ?Eu, ?El, ?Ev; auto.
+  intros i gm Hin. destruct (Epd i gm Hin) as [E|E]; auto.
+Qed.
+
+Lemma linv_complete0 g t l' pd :
+  (forall i gm, In (i, gm) pd -> i < cap g /\ gm <= gens g i) ->
+  LInv g t l' -> LInv (complete g pd) t l'.
+Proof.
+  intros Hpd [H0 H1 H2 H3 H4 H5 H6 H7 H8 H9 H10 H11].
+  constructor; simp; auto; try lia.
+  - intros i gm c e Hin Hc Hs. apply in_app_or in Hin. destruct Hin as [Hin|Hin]; [|eauto].
+    apply in_map_iff in Hin. destruct Hin as [[a b] [E _]]. inversion E; subst. lia.
+  - intros i gm c e Hin He. apply in_app_or in Hin. destruct Hin as [Hin|Hin]; [|eauto].
+    apply in_map_iff in Hin. destruct Hin as [[a b] [E _]]. inversion E; subst. lia.
+Qed.
+
+Ltac dside :=
+  try match goal with E : pc ?l = _ |- _ => rewrite ?E end;
+  simp;
+  try reflexivity; try assumption;
+  try (intros ? ? ?; left; assumption);
+  try (unfold PcInvD in *; simp; assumption).
+
